@@ -1,7 +1,8 @@
 #!/bin/bash
 # seed_eval.sh <seed worktree name under /tmp/seed> <property checks to run...>
 # 1. confirm in the seed's own worktree: suite green with the change, demo fails with / passes without
-# 2. apply the patch to /repo, run the checks, undo
+# 2. run the checks against that worktree (DIPPY_REPO) from a private copy of /verif, so that neither
+#    /verif/evidence nor the shared build directory is touched by a run on a changed tree
 id=$1; shift
 W=/tmp/seed/$id
 [ -f $W/SEED/patch.diff ] || { echo "no patch"; exit 2; }
@@ -10,9 +11,10 @@ rundemo() { case $DEMO in *.py) /venv/bin/python $DEMO $1;; *) bash $DEMO $1;; e
 echo "== suite with change:"; (cd $W && PYTHONPATH=$W/src /venv/bin/python -m pytest -q -p no:cacheprovider --timeout=900 2>&1 | tail -1)
 echo "== demo with change (expect non-zero):"; rundemo $W >/tmp/seed/$id.demo_with 2>&1; echo "exit=$?"
 echo "== demo on unchanged /repo (expect 0):"; rundemo /repo >/tmp/seed/$id.demo_without 2>&1; echo "exit=$?"
-# the checks are pointed at the seed's own worktree (the change is applied there) through DIPPY_REPO:
-# equivalent to `git -C /repo apply` + undo, but does not disturb other work that reads /repo meanwhile
+V=/tmp/seedev/v.$id; rm -rf $V; mkdir -p $V; rsync -a --exclude .git --exclude replays /verif/ $V/
 for p in "$@"; do
-  cd /verif && DIPPY_REPO=$W ./check $p > /tmp/seed/$id.$p.out 2>&1; rc=$?
-  echo "== check $p exit=$rc  $(grep -c '^VIOLATION' /tmp/seed/$id.$p.out) VIOLATION lines; $(grep '^VIOLATION' /tmp/seed/$id.$p.out | head -2 | tr '\n' ' ')"
+  (cd $V && DIPPY_REPO=$W ./check $p) > /tmp/seed/$id.$p.out 2>&1; rc=$?
+  echo "== check $p exit=$rc  $(grep -c '^VIOLATION' /tmp/seed/$id.$p.out) VIOLATION lines, $(grep -c 'no-failing-input-found' /tmp/seed/$id.$p.out) without input; $(grep '^VIOLATION' /tmp/seed/$id.$p.out | head -2 | tr '\n' ' ')"
 done
+mkdir -p /verif/replays/seeded/$id; cp $V/replays/*.json /verif/replays/seeded/$id/ 2>/dev/null
+rm -rf $V
